@@ -26,7 +26,18 @@ Definition out_eqb (a b : out) : bool :=
 Definition outcome_eqb (a b : outcome) : bool :=
   match a, b with Ret x, Ret y => out_eqb x y | Pan, Pan => true | _, _ => false end.
 
+(* index of the first step at which two traces differ (for replay files: the program can be cut after that step) *)
+Fixpoint first_diff {A B : Type} (eqb : A -> B -> bool) (a : list A) (b : list B) (i : nat) : option nat :=
+  match a, b with
+  | [], [] => None
+  | x :: a', y :: b' => if eqb x y then first_diff eqb a' b' (S i) else Some i
+  | _, _ => Some i
+  end.
+
 Definition heap_model (prog : list op) : list (outcome * Z) := run init_state prog.
+Definition heap_show (c : list op * list (outcome * Z)) :=
+  let '(prog, expected) := c in
+  (first_diff (fun a b => outcome_eqb (fst a) (fst b) && (snd a =? snd b)) (heap_model prog) expected 0%nat, heap_model prog).
 Definition heap_check (c : list op * list (outcome * Z)) : bool :=
   let '(prog, expected) := c in
   list_eqb (fun a b => outcome_eqb (fst a) (fst b) && (snd a =? snd b)) (heap_model prog) expected.
@@ -48,6 +59,14 @@ Definition slice_check (c : list cop * list (outcome * list (list hval))) : bool
 (* C05 and C09 run both kinds of cases *)
 Definition heap_or_slice_check (c : (list op * list (outcome * Z)) + (list cop * list (outcome * list (list hval)))) : bool :=
   match c with inl hc => heap_check hc | inr sc => slice_check sc end.
+Definition heap_or_slice_show (c : (list op * list (outcome * Z)) + (list cop * list (outcome * list (list hval)))) :=
+  match c with
+  | inl hc => inl (heap_show hc)
+  | inr sc => let '(prog, expected) := sc in
+              inr (first_diff slice_obs_eqb (slice_trace exact_fit empty_c prog) expected 0%nat,
+                   first_diff slice_obs_eqb (slice_trace doubling empty_c prog) expected 0%nat,
+                   slice_trace exact_fit empty_c prog)
+  end.
 Definition heap_or_slice_model (c : (list op * list (outcome * Z)) + (list cop * list (outcome * list (list hval)))) :=
   match c with
   | inl hc => inl (heap_model (fst hc))
